@@ -1,13 +1,14 @@
 package eng
 
 import (
-	"path/filepath"
-	"os"
+	"encoding/hex"
 	"fmt"
 	"go/ast"
 	"go/constant"
 	"go/token"
 	"go/types"
+	"os"
+	"path/filepath"
 	"strings"
 )
 
@@ -26,25 +27,25 @@ type loopCtx struct {
 }
 
 type callCtx struct {
-	fi       *FuncInfo
-	info     *types.Info
-	pkg      *PkgInfo
-	env      *Env
-	exits    []*Exit
-	resCells []int
-	resTypes []types.Type
-	loops    []*loopCtx
-	depth    int
-	parent   *callCtx
-	loopOrd  int
-	top      bool
-	recovers bool // a deferred recover() is installed: panics become returns
-	deferred []func(s *State)
-	lit      *ast.FuncLit
+	fi              *FuncInfo
+	info            *types.Info
+	pkg             *PkgInfo
+	env             *Env
+	exits           []*Exit
+	resCells        []int
+	resTypes        []types.Type
+	loops           []*loopCtx
+	depth           int
+	parent          *callCtx
+	loopOrd         int
+	top             bool
+	recovers        bool // a deferred recover() is installed: panics become returns
+	deferred        []func(s *State)
+	lit             *ast.FuncLit
 	deferredRecover *ast.FuncLit
-	escaped  []*Exit // panics raised inside a deferred function of the top-level function
-	defers   []*deferRec
-	deferOf  *Exit // this frame executes a deferred function for that exit of the parent frame
+	escaped         []*Exit // panics raised inside a deferred function of the top-level function
+	defers          []*deferRec
+	deferOf         *Exit // this frame executes a deferred function for that exit of the parent frame
 }
 
 type deferRec struct {
@@ -54,23 +55,23 @@ type deferRec struct {
 }
 
 type Obligation struct {
-	Name    string
-	Prop    string
-	Kind    string
-	Goal    *Term // must be valid: we check Not(Goal) unsat under Hyp
-	Hyp     *Term
-	Pos     string
-	Src     string
-	Cover   bool // cover query: Hyp ∧ Goal must be SAT
-	Inputs  []NamedTerm
-	Result  SolveResult
-	Status  string // discharged / failed / cover-sat / cover-unsat
-	Axioms  []*Term // quantified axioms of spec functions (used only if the axiom-free query is not unsat)
-	Slow    bool
-	relaxed bool
-	ground  bool
+	Name          string
+	Prop          string
+	Kind          string
+	Goal          *Term // must be valid: we check Not(Goal) unsat under Hyp
+	Hyp           *Term
+	Pos           string
+	Src           string
+	Cover         bool // cover query: Hyp ∧ Goal must be SAT
+	Inputs        []NamedTerm
+	Result        SolveResult
+	Status        string  // discharged / failed / cover-sat / cover-unsat
+	Axioms        []*Term // quantified axioms of spec functions (used only if the axiom-free query is not unsat)
+	Slow          bool
+	relaxed       bool
+	ground        bool
 	CandidateKind string
-	Candidate string // model of the axiom-free query when the full query is undecided
+	Candidate     string // model of the axiom-free query when the full query is undecided
 }
 
 type NamedTerm struct {
@@ -79,48 +80,49 @@ type NamedTerm struct {
 }
 
 type Exec struct {
-	Pr      *Program
-	Obls    []*Obligation
-	cur     *callCtx
-	Inlined map[string]int
-	Havocs  map[string]int
-	Unmod   map[string]int // unmodelled callees (result havocked)
-	AssumedNoPanic map[string]int
-	Notes   []string
-	maxDepth int
-	nopanicMode bool
-	propTag string
-	fnTag   string
-	panicSeq map[string]int
-	steps   int
-	Trusted map[string]int
-	specMode int
-	entryInputs []NamedTerm
-	inRecover int
+	Pr                                               *Program
+	Obls                                             []*Obligation
+	cur                                              *callCtx
+	Inlined                                          map[string]int
+	Havocs                                           map[string]int
+	Unmod                                            map[string]int // unmodelled callees (result havocked)
+	AssumedNoPanic                                   map[string]int
+	Notes                                            []string
+	maxDepth                                         int
+	nopanicMode                                      bool
+	propTag                                          string
+	fnTag                                            string
+	panicSeq                                         map[string]int
+	steps                                            int
+	Trusted                                          map[string]int
+	specMode                                         int
+	entryInputs                                      []NamedTerm
+	inRecover                                        int
 	needSumAxioms, needShiftAxioms, needConcatAxioms bool
-	defaultSpec *specCtx
-	specWorldID int
-	entryPC *Term
-	reqSeq map[string]int
-	Modular map[string]int
-	specCallRes *types.Tuple
-	typeAxioms []*Term
-	typeAxSeen map[*Term]bool
-	qVars      map[*Term]bool
-	loopOrds   map[ast.Node]int
-	dryRun     *FuncInfo
-	readBank   bool
-	pureDepth  int
-	selfFn     *FuncInfo
-	pruneMode  bool
-	ifaceOver  map[*Value]map[string]bool
-	pruneMemo  map[*Term]bool
-	Pruned     int
-	skipWrapped bool
-	entrySnap  *State
-	entryWorld int
-	invokeSeq  int
-	exploring  int
+	defaultSpec                                      *specCtx
+	specWorldID                                      int
+	entryPC                                          *Term
+	reqSeq                                           map[string]int
+	Modular                                          map[string]int
+	specCallRes                                      *types.Tuple
+	typeAxioms                                       []*Term
+	typeAxSeen                                       map[*Term]bool
+	qVars                                            map[*Term]bool
+	loopOrds                                         map[ast.Node]int
+	dryRun                                           *FuncInfo
+	iterMods                                         map[string]bool // dry run only: "module\x00prefix" of every store iterator created
+	readBank                                         bool
+	pureDepth                                        int
+	selfFn                                           *FuncInfo
+	pruneMode                                        bool
+	ifaceOver                                        map[*Value]map[string]bool
+	pruneMemo                                        map[*Term]bool
+	Pruned                                           int
+	skipWrapped                                      bool
+	entrySnap                                        *State
+	entryWorld                                       int
+	invokeSeq                                        int
+	exploring                                        int
 }
 
 func NewExec(pr *Program) *Exec {
@@ -1108,7 +1110,6 @@ func (x *Exec) recoverActive() bool {
 	return false
 }
 
-
 // infeasible asks the solvers (1 s) whether t is unsatisfiable. Used only to skip branches of the function under
 // contract that its precondition excludes (`prune`): skipping an unsatisfiable path is sound.
 func (x *Exec) infeasible(t *Term) bool {
@@ -1137,4 +1138,22 @@ func (x *Exec) infeasible(t *Term) bool {
 		x.Pruned++
 	}
 	return res
+}
+
+func (x *Exec) noteIter(mod string, prefix []KeySeg) {
+	if x.dryRun == nil {
+		return
+	}
+	if x.iterMods == nil {
+		x.iterMods = map[string]bool{}
+	}
+	var sb strings.Builder
+	sb.WriteString(mod + "/")
+	for _, sg := range prefix {
+		if sg.T != nil {
+			break // only the leading constant part identifies the families covered
+		}
+		sb.WriteString(hex.EncodeToString(sg.Const))
+	}
+	x.iterMods[mod+"\x00"+sb.String()] = true
 }
